@@ -441,6 +441,10 @@ func (c *Ctx) Finish(level, rule string, extra map[string]any, assumptions []str
 	if c.Only != "" {
 		cov["replay_only"] = c.Only
 	}
+	if st := os.Getenv("GPV_SECOND_TOOLCHAIN"); st != "" {
+		cov["second_toolchain"] = st
+	}
+	cov["go_version"] = runtime.Version()
 	infra := append([]string(nil), c.infra...)
 	if len(infra) > 0 {
 		cov["infrastructure_errors"] = infra
